@@ -5,6 +5,7 @@
    No MontePy code is modelled here and there are no proofs in this file. *)
 From Coq Require Import List String Ascii Arith Bool ZArith QArith.
 From MPV Require Import Model.Wire Spec.Cards.
+From MPV Require Spec.Geometry Spec.Shortcuts.
 Import ListNotations.
 Close Scope Q_scope.
 Open Scope string_scope.
@@ -122,7 +123,10 @@ Definition wf_file (w : nat) (bytes : string) : bool :=
      lines <w> <hexbytes>     ->  the physical lines (S1)
      wf <w> <hexbytes>        ->  1 | 0
      number <hextoken>        ->  none | <numerator>/<denominator>        (S9; not reduced)
-     tokens <list of words>   ->  list of tokens (S8)       gtokens: with ( ) : # self-delimiting *)
+     tokens <list of words>   ->  list of tokens (S8)       gtokens: with ( ) : # self-delimiting
+     geometry <list of tokens>            ->  none | the region as an s-expression (S11)
+     sameregion <tokens> <tokens>         ->  1 | 0 | none (one of them is not a geometry)
+     shortcuts <list of tokens>           ->  none | entries: n<num>/<den>  j  l<a>:<b>:<n>:<j>  w<hexword> (S10) *)
 Definition show_card (c : card) : string :=
   show_list hex_encode (card_words c) ++ ":" ++ show_list hex_encode (card_comments c).
 
@@ -135,6 +139,26 @@ Definition show_problem (p : problem) : string :=
   join "|" (map show_block (cards p)).
 
 Definition show_Q (q : Q) : string := show_Z (Qnum q) ++ "/" ++ show_Z (Zpos (Qden q)).
+
+(* S11 / S10 *)
+Fixpoint show_region (e : Geometry.region) : string :=
+  match e with
+  | Geometry.Side p n => "(s" ++ (if p then "+" else "-") ++ " " ++ show_Z n ++ ")"
+  | Geometry.NotCell n => "(c " ++ show_Z n ++ ")"
+  | Geometry.Not a => "(not " ++ show_region a ++ ")"
+  | Geometry.And a b => "(and " ++ show_region a ++ " " ++ show_region b ++ ")"
+  | Geometry.Or a b => "(or " ++ show_region a ++ " " ++ show_region b ++ ")"
+  end.
+
+Definition show_entry (e : Shortcuts.entry) : string :=
+  match e with
+  | Shortcuts.Number q => "n" ++ show_Q q
+  | Shortcuts.Jump => "j"
+  | Shortcuts.LogStep a b n j => "l" ++ show_Q a ++ ":" ++ show_Q b ++ ":" ++ show_nat n ++ ":" ++ show_nat j
+  | Shortcuts.Word w => "w" ++ hex_encode w
+  end.
+
+Definition hex_words (l : string) : option (list string) := parse_list (fun x => Some (hex_decode x)) l.
 
 Definition run_Cards (req : string) : string :=
   match Wire.words req with
@@ -166,6 +190,25 @@ Definition run_Cards (req : string) : string :=
   | ["gtokens"; l] =>
       match parse_list (fun x => Some (hex_decode x)) l with
       | Some ws => show_list hex_encode (geometry_tokens (mkCard ws []))
+      | None => "parse:err"
+      end
+  | ["geometry"; l] =>
+      match hex_words l with
+      | Some ws => match Geometry.read_geometry ws with Some e => show_region e | None => "none" end
+      | None => "parse:err"
+      end
+  | ["sameregion"; l1; l2] =>
+      match hex_words l1, hex_words l2 with
+      | Some a, Some b =>
+          match Geometry.read_geometry a, Geometry.read_geometry b with
+          | Some x, Some y => if Geometry.same_regionb x y then "1" else "0"
+          | _, _ => "none"
+          end
+      | _, _ => "parse:err"
+      end
+  | ["shortcuts"; l] =>
+      match hex_words l with
+      | Some ws => match Shortcuts.expand ws with Some es => show_list show_entry es | None => "none" end
       | None => "parse:err"
       end
   | _ => "parse:err"
